@@ -12,3 +12,5 @@ if [ ! -x $V/bin/python ] || ! $V/bin/python -c 'import z3, numpy, lxml' 2>/dev/
   PIP_NO_INDEX=1 $V/bin/python -m pip install -q --no-index --find-links /opt/veriftools/wheels crosshair-tool || echo "crosshair-tool not installed (optional cross-check disabled)"
 fi
 $V/bin/python -c 'import z3, numpy, lxml; print("setup ok: z3", z3.get_version_string())'
+# validate Engine P's encoding against the repository's own suite and against str/re (DESIGN.md section 4)
+$V/bin/python lib/selftest.py > $V/selftest.log 2>&1; rc=$?; tail -4 $V/selftest.log; exit $rc
